@@ -268,8 +268,8 @@ def run_script(case):
     del log[:]
 
     tasks = OrderedTasks()
-    if isinstance(getattr(app, '_tasks', None), set):
-        app._tasks = tasks
+    if isinstance(common.get_tasks(app, None), set):
+        common.set_tasks(app, tasks)
     # as run() does: fires from handlers and task steps are own-thread fires
     app._executing_thread = threading.current_thread()
     try:
@@ -278,7 +278,7 @@ def run_script(case):
         rot = case.get('rot') or [0]
         sched, quiet, t = [], False, 0
         for t in range(MAXTICKS):
-            if not len(app) and not len(app._tasks):
+            if not len(app) and not len(common.get_tasks(app)):
                 quiet = True
                 break
             tasks.rot = rot[t % len(rot)]
